@@ -226,3 +226,55 @@ def rule_rewrite_invariance(ctx, rep):
         rep.check(norm(a, mapping) == norm(c) and subs(a) == subs(c), rule, name, where, norm(c), norm(a, mapping),
                   why="the graph depends on label names, comments or layout", sample={"program": name})
     rep.count("programs rewritten", n)
+
+
+def _pad(src):
+    """insert stack-neutral padding (`int 0; pop`, a comment) after every bz/bnz/b/callsub line and before every label;
+    returns (new source, old line -> new line)"""
+    out, mapping = [], {}
+    for i, raw in enumerate(src.splitlines(), start=1):
+        t = raw.strip()
+        if t.endswith(":") and i > 1:
+            out += ["// padding before a label", "int 0", "pop"]
+        out.append(raw)
+        mapping[i] = len(out)
+    return "\n".join(out) + "\n", mapping
+
+
+PAD_PROGRAMS = {
+    "branch to the next line on an OnCompletion check": "#pragma version 6\ntxn OnCompletion\nint UpdateApplication\n==\nbnz next\nnext:\nint 1\nreturn\n",
+    "branch to the next line on a TypeEnum check": "#pragma version 6\ntxn TypeEnum\nint pay\n==\nbz next\nnext:\nint 1\nreturn\n",
+    "branch to the next line on a RekeyTo check": "#pragma version 6\ntxn RekeyTo\nglobal ZeroAddress\n==\nbnz next\nnext:\nint 1\nreturn\n",
+    "branch to the next line on a Fee check": "#pragma version 6\ntxn Fee\nint 1000\n<=\nbz next\nnext:\nint 1\nreturn\n",
+    "diamond with size and kind checks": "#pragma version 6\nglobal GroupSize\nint 2\n==\nbnz two\ntxn OnCompletion\nint NoOp\n==\nassert\nb join\ntwo:\ntxn RekeyTo\nglobal ZeroAddress\n==\nassert\njoin:\nint 1\nreturn\n",
+    "subroutine with a check, called twice": "#pragma version 6\ncallsub f\ntxn Fee\nint 1000\n<=\nassert\ncallsub f\nint 1\nreturn\nf:\ntxn OnCompletion\nint DeleteApplication\n!=\nassert\nretsub\n",
+}
+
+
+def rule_padding_invariance(ctx, rep):
+    rule = "T-REWRITE(contexts)"
+    rep.rule(rule, "inserting stack-neutral padding (`int 0; pop` and a comment before every label) leaves the per-block contexts of all four "
+                   "analyses unchanged, incl. a branch whose target is the next line (the complete analysis is evaluated abstractly on the "
+                   "program and on its padded version)")
+    from .fixpoint import analyse
+    where = ctx.path("tealer.analyses.dataflow.transaction_context.generic")
+    for name, src in PAD_PROGRAMS.items():
+        padded, mapping = _pad(src)
+        try:
+            a, la = analyse(ctx, src)
+            c, lc = analyse(ctx, padded)
+        except PyRaise as e:
+            rep.violation(rule, f"{name}: runs", where, f"RAISES {e.exc} {e.where}", "two analyses")
+            continue
+        # blocks correspond through their first instruction (padding is inserted before labels: it extends the previous block or forms a new one)
+        last_a = {b: mapping[ls[0]] for b, ls in la.items()}
+        by_last_c = {ls[0]: b for b, ls in lc.items()}
+        diffs = []
+        for key in a:
+            for b, v in a[key].items():
+                cb = by_last_c.get(last_a[b])
+                if cb is None:
+                    diffs.append((key, b, "no corresponding block"))
+                elif c[key][cb] != v:
+                    diffs.append((key, f"B{b}", v, c[key][cb]))
+        rep.check(not diffs, rule, name, where, diffs[:4], [], why="verdicts depend on stack-neutral padding", sample={"program": name, "keys": sorted(a)})
